@@ -24,6 +24,7 @@ def run(rep, tier, build, replay=None):
     def orc(rep_, cx, case, stats):
         dboracles.oracle_expand(rep_, cx, case, stats)
     dbfam.run_family(rep, tier, 'C12', 12, [orc], 26, 400, tweak)
+    dbfam.run_tables_stream(rep, tier, 'C12', 1212, 6, 120, mode='expand')
     rep.coverage['rule'] = ('generated universes whose lexicons share ILIs partially (several synsets per ILI, synsets without or '
                             'with proposed ILIs, lexicons with relations of their own, dependent lexicon bb requiring ba and a '
                             'missing lexicon) x expand in {default, "", single, several, "*"} x restricted / default mode; the '
